@@ -6,10 +6,12 @@
 //@| #[cfg_attr(kani, kani::requires(self.current_usage.load(Ordering::Relaxed).checked_add(byte_count).is_some()))]
 //@| #[cfg_attr(kani, kani::ensures(|r| r.is_ok() == (old(self.current_usage.load(Ordering::Relaxed)) + byte_count <= self.max)))]
 //@| #[cfg_attr(kani, kani::ensures(|r| self.current_usage.load(Ordering::Relaxed) == old(self.current_usage.load(Ordering::Relaxed)) + byte_count))]
+//@| #[cfg_attr(kani, kani::modifies(self.current_usage.as_ptr()))]
 
 //@contract src/memory/limiter.rs | impl SharedMemoryLimiter | decrease_usage
 //@| #[cfg_attr(kani, kani::requires(self.current_usage.load(Ordering::Relaxed) >= byte_count))]
 //@| #[cfg_attr(kani, kani::ensures(|_r| self.current_usage.load(Ordering::Relaxed) == old(self.current_usage.load(Ordering::Relaxed)) - byte_count))]
+//@| #[cfg_attr(kani, kani::modifies(self.current_usage.as_ptr()))]
 
 //@harness limiter_increase_usage_contract | complete | full usize domain (max, prev, n), loop-free | C10,C15
 //@harness limiter_decrease_usage_contract | complete | full usize domain, loop-free | C10,C15
@@ -57,7 +59,7 @@ mod verif_kani_limiter {
 }
 
 //@harness arena_append_accounting | bounded | buffer lengths <= 4, symbolic limit and contents, 2 appends | C10,C15,C01
-//@harness arena_init_with_shift | bounded | buffer lengths <= 4, symbolic limit and contents | C10,C15,C01,C02
+//@harness arena_init_with | bounded | buffer lengths <= 4, symbolic limit and contents | C10,C15,C01
 //@append src/memory/arena.rs
 #[cfg(kani)]
 mod verif_kani_arena {
@@ -84,6 +86,8 @@ mod verif_kani_arena {
             // every successful growth was charged before it happened, and the total stays within the limit
             assert!(limiter.verif_usage() <= max);
             assert!(la <= cap0 || limiter.verif_usage() == before0 + (la - cap0));
+            // no uncharged capacity: the buffer never owns more than what has been charged for it
+            assert!(arena.data.capacity() <= limiter.verif_usage());
             let before = limiter.verif_usage();
             let cap = arena.data.capacity();
             kani::cover!(la + lb > cap);
@@ -93,6 +97,7 @@ mod verif_kani_arena {
                 assert!(&arena.bytes()[..la] == &a[..la]);
                 assert!(&arena.bytes()[la..] == &b[..lb]);
                 assert!(limiter.verif_usage() <= max);
+                assert!(arena.data.capacity() <= limiter.verif_usage());
             } else {
                 // the failing call leaves the buffer untouched and failed only because the charge exceeds the limit
                 assert!(arena.bytes() == &a[..la]);
@@ -106,20 +111,22 @@ mod verif_kani_arena {
     }
     #[kani::proof]
     #[kani::unwind(10)]
-    fn arena_init_with_shift() {
+    fn arena_init_with() {
         let max: usize = kani::any();
         let limiter = SharedMemoryLimiter::new(max);
         let mut arena = Arena::new(limiter.clone(), 0);
         let a: [u8; 4] = kani::any();
         let la: usize = kani::any();
         kani::assume(la <= 4);
-        if arena.init_with(&a[..la]).is_ok() {
+        // (Arena::shift moves bytes only and never touches the limiter: its view is proved unbounded in Verus, U-ARENA)
+        let r = arena.init_with(&a[..la]);
+        if r.is_ok() {
             assert!(arena.bytes() == &a[..la]);
-            let k: usize = kani::any();
-            kani::assume(k <= la);
-            arena.shift(k);
-            assert!(arena.bytes() == &a[k..la]);
             assert!(limiter.verif_usage() <= max);
+            assert!(limiter.verif_usage() == la);
+        } else {
+            assert!(la > max);
+            assert!(arena.bytes().is_empty());
         }
     }
 }
@@ -134,6 +141,7 @@ mod verif_kani_limited_vec {
         let max: usize = kani::any();
         let limiter = SharedMemoryLimiter::new(max);
         let mut ok_pushes = 0usize;
+        let mut failed = false;
         {
             let mut v: LimitedVec<T> = LimitedVec::new(limiter.clone());
             let mut i = 0;
@@ -154,6 +162,7 @@ mod verif_kani_limited_vec {
                         assert!(v.vec.capacity() == cap_before);
                         let additional = cap_before.max(LimitedVec::<T>::min_capacity());
                         assert!(used_before + additional * size_of::<T>() > max);
+                        failed = true;
                         break;
                     }
                 }
@@ -161,8 +170,9 @@ mod verif_kani_limited_vec {
             }
             kani::cover!(ok_pushes == n);
         }
-        // Drop returns exactly what was charged (successful growth steps only)
-        assert!(limiter.verif_usage() == 0 || limiter.verif_usage() > max);
+        // Drop returns exactly what was charged for the capacity (the over-charge of a *failed* growth step is deliberately
+        // not returned: the rewriter is poisoned by then)
+        if !failed { assert!(limiter.verif_usage() == 0); }
     }
     #[kani::proof]
     #[kani::unwind(12)]
